@@ -147,6 +147,15 @@ theorem finalize_removals_last (s s' : DState) (r : Except Exn Unit) (h : finali
     ∃ ws rs, s'.trace = s.trace ++ ws ++ rs ∧
       (∀ op ∈ ws, ∀ p, op ≠ FsOp.unlink p ∧ op ≠ FsOp.rmdir p) ∧
       (∀ op ∈ rs, ∃ p, op = FsOp.unlink p ∨ op = FsOp.rmdir p) := by
-  sorry
+  unfold finalizeDeferred at h
+  rw [run_bind, run_get] at h
+  refine TrExt.seq2 (A := fun op => ∀ p, op ≠ FsOp.unlink p ∧ op ≠ FsOp.rmdir p)
+    (B := fun op => ∃ p, op = FsOp.unlink p ∨ op = FsOp.rmdir p) ?_ (fun _ => ?_) h
+  · spec_walk (good_ext _)
+    · exact ensureParentDirs_trExt (by intro p q; simp) _
+    · exact writeFile_trExt (by intro p q; simp) (by intro p b q; simp) _ _
+    · exact permissionCallback_trExt (by intro p m q; simp) _ _ _
+  · spec_walk (good_ext _)
+    exact removeFileAndEmptyParents_trExt (fun p => ⟨p, Or.inl rfl⟩) (fun p => ⟨p, Or.inr rfl⟩) _
 
 end PatchModel.C09
